@@ -87,6 +87,7 @@ int main(int argc, char** argv)
         libs[argv[i]] = argv[i + 1];
     std::map<int, std::unique_ptr<nitro::dl::dl>> dls;
     std::map<int, std::unique_ptr<sym_t>> syms;
+    std::map<int, std::shared_ptr<void>> handles; // copies of dl::get()
     std::string line;
     while (std::getline(std::cin, line))
     {
@@ -100,11 +101,13 @@ int main(int argc, char** argv)
             {
                 dls.clear();
                 syms.clear();
+                handles.clear();
                 begin_case(w, 20.0);
             }
             else if (c == "END")
             {
                 syms.clear();
+                handles.clear();
                 dls.clear();
                 out("X ok");
                 end_case();
@@ -164,6 +167,25 @@ int main(int argc, char** argv)
                     *dls[dst] = *dls[src];
                     out("O ok");
                 }
+            }
+            else if (c == "HOLD")
+            {
+                // HOLD <hslot> <dlslot>: keep the shared handle returned by dl::get()
+                int hs = std::atoi(w[1].c_str()), ds = std::atoi(w[2].c_str());
+                if (!dls.count(ds))
+                    out("H skip");
+                else
+                {
+                    auto h = dls[ds]->get();
+                    handles.erase(hs);
+                    handles[hs] = std::move(h);
+                    out("H ok");
+                }
+            }
+            else if (c == "DROPH")
+            {
+                handles.erase(std::atoi(w[1].c_str()));
+                out("D ok");
             }
             else if (c == "DROPDL")
             {
